@@ -31,12 +31,25 @@ pub fn depth(pos: usize) -> u32 {
 /// number of levels below `pos` in a heap of `n` elements (0 for a leaf or a position
 /// outside the heap): the longest downward path starts with left children
 pub fn levels_below(pos: usize, n: usize) -> u32 {
+    // (pos+1)*2^h - 1 is the leftmost descendant h levels down; a fixed number of rounds
+    // (unrolled by hand: no loop to unwind) so that a symbolic position does not fork the execution
     let mut h = 0;
-    let mut p = pos;
-    while 2 * p + 1 < n {
-        p = 2 * p + 1;
-        h += 1;
+    let mut m = pos + 1;
+    macro_rules! round {
+        () => {
+            if 2 * m <= n {
+                m *= 2;
+                h += 1;
+            }
+        };
     }
+    round!();
+    round!();
+    round!();
+    round!();
+    round!();
+    round!();
+    assert!(2 * m > n, "harness: levels_below covers heaps below 64 elements");
     h
 }
 
